@@ -345,3 +345,4 @@ Proof.
     + specialize (Hc FStorePerByte 2 (or_intror (or_introl eq_refl))). discriminate.
     + specialize (Hc FBase 1 (or_introl eq_refl)). discriminate.
 Qed.
+
